@@ -89,7 +89,7 @@ PROPS = {
         ],
     },
     "C16": {
-        "suites": ["c16"],
+        "suites": ["c16", "c12"],
         "assumptions": COMMON_ASSUME + [
             "the struct decoders of the model are strict (fields in writer order with the declared wire types); they accept what the Go writers produce, which is all the round-trip claim needs",
         ],
